@@ -12,6 +12,8 @@ CONSTANTS
   MaxMarkers = 0
   MaxLen = 4
   FreshLen = 2
+  Family = "seq"
+  PosLen = 0
   SimMode = FALSE
 INVARIANT GenInv
 CHECK_DEADLOCK FALSE
